@@ -416,28 +416,49 @@ def model(case):
     n_services = 1 if case.get('services') else 0
     total      = min(case['req'], len(usable))
 
+    # the pilot may use `requested` of the usable nodes; nodes set aside for
+    # sub-agents and services are taken from those (what the RM does) or from
+    # spare usable nodes (just as good): a range
+    reserved   = n_agents + n_services
     return {'hosts'     : hosts,
             'usable'    : usable,
             'cores'     : cores,
             'gpus'      : G,
             'n_agents'  : n_agents,
             'n_services': n_services,
-            'offered'   : total - n_agents - n_services}
+            'lo'        : total - reserved,
+            'hi'        : min(case['req'], len(usable) - reserved)}
 
 
 # ------------------------------------------------------------------------------
 # triggers (abstraction of the input class for violation keys)
 #
-def t_parse(case):
-    t = '%s/%s' % (case['rm'], case['src'])
-    if 'shape' in case:
+def t_parse(case, got=None):
+    '''
+    presentation class: RM, source, node file shape, what is configured.  For
+    the cores clause `got` adds how the offered size relates to the inputs.
+    '''
+    src = case['src']
+    if case['rm'] == 'CCM' and src in ('latest', 'decoy'):
+        src = 'nodelist'
+    t = '%s/%s' % (case['rm'], src)
+    if 'shape' in case and case['src'] != 'vnodes':
         t += '/per-%s' % case['shape']
         if case.get('order') == 'interleaved':
             t += '-interleaved'
     if case.get('pseudo'):
         t += '/pseudo=%s' % case['pseudo']
-    t += '/cpn=%s' % ('cfg' if case['cpn_cfg'] else 'env')
-    t += '/smt=%d' % case['S']
+    t += '/cores=%s' % ('cfg' if case['cpn_cfg'] else 'env')
+    if got is not None:
+        C, S = case['C'], case['S']
+        lph  = lines_per_host(case) if 'shape' in case else None
+        if   len(got) != 1      : rel = 'non-uniform'
+        elif got[0] == lph != C : rel = 'lines-per-host'
+        elif got[0] == C        : rel = 'cores'
+        elif got[0] == C * S    : rel = 'cores-x-smt'
+        elif got[0] == 1        : rel = '1'
+        else                    : rel = 'other'
+        t += '/got=%s' % rel
     return t
 
 
@@ -467,6 +488,22 @@ def t_filter(case):
             case['rm'], case['agents'], 1 if case.get('services') else 0,
             case['backup'], reach_class(case),
             '=' if case['req'] == n else '<')
+
+
+def t_layout(case):
+    return '%s/agents=%s/services=%d' % (case['rm'], case['agents'],
+                                         1 if case.get('services') else 0)
+
+
+def t_count(case):
+    m = model(case)
+    if not case['backup']                 : probe = 'none'
+    elif len(m['usable']) == len(m['hosts']): probe = 'all-ok'
+    else                                  : probe = 'some-bad'
+    return '%s/reserved=%s/backup=%d/probe=%s/req%salloc' % (
+            case['rm'], '0' if not m['n_agents'] + m['n_services'] else '>0',
+            case['backup'], probe,
+            '=' if case['req'] == len(m['hosts']) else '<')
 
 
 # ------------------------------------------------------------------------------
@@ -508,8 +545,12 @@ class Env(object):
 
     def __exit__(self, *exc):
         os.chdir(self.saved_cwd)
-        os.environ.clear()
-        os.environ.update(self.saved_env)
+        for k in list(os.environ):
+            if k not in self.saved_env:
+                del os.environ[k]
+        for k, v in self.saved_env.items():
+            if os.environ.get(k) != v:
+                os.environ[k] = v
         shutil.rmtree(self.cdir, ignore_errors=True)
         return False
 
@@ -572,6 +613,23 @@ def check_case(part, case, scratch, verbose=False):
     if verbose:
         print('case       :', case)
         print('environment:', env)
+        if 'shape' in case and case['rm'] != 'FORK' and \
+           case['src'] not in ('vnodes', 'nofile', 'nodir'):
+            print('node file  :', ' '.join(nodefile_lines(case)))
+        if case['src'] == 'vnodes':
+            print('qstat -f   :', repr(vnode_output(case)))
+        cfg, rcfg = build_cfg(case)
+        print('cfg        :', {k: cfg[k] for k in ('nodes', 'cores', 'gpus',
+                               'backup_nodes', 'cores_per_node',
+                               'gpus_per_node')},
+              'agents:', {k: v['target'] for k, v in cfg['agents'].items()},
+              './services:', bool(case.get('services')))
+        print('rcfg       :', rcfg['system_architecture'].as_dict(),
+              'fake_resources:', rcfg['fake_resources'])
+        if case['backup']:
+            print('node probe :', case['reach'],
+                  '(R reachable, U unreachable, T timeout; in allocation '
+                  'order)')
         print('model      :', m)
 
     # --------------------------------------------------------------------------
@@ -581,7 +639,7 @@ def check_case(part, case, scratch, verbose=False):
         entry = reg.get('rm', {}).get(cls.lower()) if reg.get('rm') else None
         if entry:
             part.violation('offered-after-refusal|%s.__init__|%s'
-                           % (cls, t_filter(case)),
+                           % (cls, t_count(case)),
                            {'what': 'RM raised %r but registry holds %s with '
                                     '%d nodes' % (error, rkey,
                                               len(entry.get('node_list', [])))},
@@ -619,7 +677,7 @@ def check_case(part, case, scratch, verbose=False):
         part.violation('names-allocated|%s|%s'
                        % (p_site if what == 'not allocated' else f_site,
                           t_parse(case) if what == 'not allocated'
-                          else t_filter(case)),
+                          else t_count(case)),
                        {'what': 'offered %s, %s: %s; usable are %s'
                                 % (names(nl), what, alien, m['usable'])},
                        replay)
@@ -639,14 +697,14 @@ def check_case(part, case, scratch, verbose=False):
     glens = sorted(set(len(node['gpus'])  for node in nl))
 
     if m['cores'] is not None and not set(clens) <= m['cores']:
-        part.violation('cores-len|%s|%s' % (p_site, t_parse(case)),
+        part.violation('cores-len|%s|%s' % (p_site, t_parse(case, clens)),
                        {'what': 'nodes have %s cores, configured: %s '
                                 '(C=%d, SMT=%d, lines/host=%s)'
                                 % (clens, sorted(m['cores']), case['C'],
                                    case['S'], lines_per_host(case)
                                    if 'shape' in case else '-')}, replay)
     elif len(clens) != 1:
-        part.violation('cores-len|%s|%s' % (p_site, t_parse(case)),
+        part.violation('cores-len|%s|%s' % (p_site, t_parse(case, clens)),
                        {'what': 'nodes differ in size: %s' % clens}, replay)
 
     if glens != [m['gpus']]:
@@ -670,9 +728,10 @@ def check_case(part, case, scratch, verbose=False):
                                     if i not in down_c) or \
            any(g != rpc.FREE for i, g in enumerate(node['gpus'])
                                     if i not in down_g):
-            part.violation('not-free|ResourceManager._init_from_scratch|%s'
+            part.violation('usable-unless-blocked|ResourceManager._init_from_scratch|%s'
                            % t_blocked(case),
-                           {'what': 'node %s offered with used resources: '
+                           {'what': 'node %s: resources not blocked but not '
+                                    'free: '
                                     'cores %s gpus %s' % (node['name'],
                                     node['cores'], node['gpus'])}, replay)
             break
@@ -683,32 +742,32 @@ def check_case(part, case, scratch, verbose=False):
         if rm != 'FORK':
             common |= set(names(nl)) & set(names(lst))
         if common:
-            part.violation('disjoint-%s|%s|%s' % (what, f_site, t_filter(case)),
+            part.violation('disjoint-%s|%s|%s' % (what, f_site, t_layout(case)),
                            {'what': 'nodes %s offered and reserved for %s: '
                                     'node_list %s, %s_node_list %s'
-                                    % (sorted(common), what, names(nl), what,
+                                    % (sorted(common, key=str), what, names(nl), what,
                                        names(lst))}, replay)
 
     if len(anl) != m['n_agents']:
-        part.violation('agent-size|%s|%s' % (f_site, t_filter(case)),
+        part.violation('agent-size|%s|%s' % (f_site, t_layout(case)),
                        {'what': '%d nodes reserved for %d sub-agents on nodes'
                                 % (len(anl), m['n_agents'])}, replay)
 
     if len(snl) != m['n_services']:
-        part.violation('service-size|%s|%s' % (f_site, t_filter(case)),
+        part.violation('service-size|%s|%s' % (f_site, t_layout(case)),
                        {'what': '%d nodes reserved for services, ./services %s'
                                 % (len(snl), 'exists' if m['n_services']
                                              else 'does not exist')}, replay)
 
     # size
     if not 1 <= len(nl) <= case['req']:
-        part.violation('length-bounds|%s|%s' % (f_site, t_filter(case)),
+        part.violation('length-bounds|%s|%s' % (f_site, t_count(case)),
                        {'what': '%d nodes offered, %d requested'
                                 % (len(nl), case['req'])}, replay)
 
-    elif len(nl) != m['offered']:
+    elif not m['lo'] <= len(nl) <= m['hi']:
         part.violation('one-entry-per-usable-node|%s|%s'
-                       % (f_site, t_filter(case)),
+                       % (f_site, t_count(case)),
                        {'what': '%d nodes offered: %s; usable: %s, requested '
                                 '%d, reserved %d + %d'
                                 % (len(nl), names(nl), m['usable'],
@@ -970,8 +1029,6 @@ def _job(idx):
         key  = '%s_%s' % (case['rm'], 'refused' if res == 'refused'
                                                  else 'accepted')
         per_rm[key] = per_rm.get(key, 0) + 1
-        if res != 'refused' and i % 4001 == 0:
-            part.sample({'case': case, 'offered': res})
     part.cover(evaluations=hi - lo, **per_rm)
     return part.dump()
 
@@ -991,10 +1048,29 @@ def run(ctx):
     for res in seams.pmap(_job, jobs, ctx.workers):
         ctx.merge(res)
 
+    # written-out cases: one per stage of the RM
+    picks = [lambda c: c['rm'] == 'LSF' and c.get('pseudo') == 'both'
+                       and c['S'] == 2 and c['bc'] and len(c['hosts']) == 2
+                       and not c['cpn_cfg'] and c['shape'] == 'core',
+             lambda c: c['rm'] == 'SLURM' and c['part'] == 'B'
+                       and c['reach'] == 'RURR' and c['req'] == 3
+                       and c['agents'] == 'L+1' and c['services'],
+             lambda c: c['rm'] == 'PBSPRO' and c['src'] == 'vnodes'
+                       and len(c['hosts']) == 3 and c['bg']]
+    for pick in picks:
+        for case in _cases:
+            if pick(case):
+                res = check_case(report.Part(), case, _scratch)
+                ctx.sample({'case': case, 'result': res})
+                break
+
     # a harness in which an RM never comes up decides nothing
+    # (unless other inputs already decided it)
     for rm in RMS:
         if not ctx.coverage.get('%s_accepted' % rm):
-            raise RuntimeError('harness: %s refused every input' % rm)
+            if not getattr(ctx, '_nviol', 0):
+                raise RuntimeError('harness: %s refused every input' % rm)
+            ctx.notes.append('%s refused every input' % rm)
 
     n_a = len([c for c in _cases if c['part'] == 'A'])
     ctx.set(exhaustive=True, cases_presentation=n_a,
